@@ -1682,10 +1682,25 @@ pub fn pipeline_template(input: &QueryContainer) -> Result<Vec<Operator>, Compil
 pub fn query(input: &QueryContainer) -> Result<Query, CompileError> {
     let span = Span::new_extra(input.query.as_str(), input);
     let (input, search) = parse_search(span).map_err(|_| CompileError::Parse)?;
-    let (input, operators) = opt(tag("|").precedes(parse_operators))
+    let (input, operators) = opt(tag("|").preceded_by(multispace0).precedes(parse_operators))
         .map(|ops| ops.unwrap_or_default())
         .parse(input)
         .map_err(|_| CompileError::Parse)?;
+    let (input, _) =
+        multispace0::<_, nom::error::Error<Span>>(input).map_err(|_| CompileError::Parse)?;
+
+    // everything must have been consumed: text the operators left behind would be silently ignored
+    if !input.fragment().is_empty() {
+        input
+            .extra
+            .report_error_for("unexpected input after the end of the query")
+            .with_code_range(
+                input.to_range(),
+                "this part of the query was not understood",
+            )
+            .with_resolution("Remove it, or separate a further operator with a vertical bar (|)")
+            .send_report();
+    }
 
     if input.extra.get_error_count() > 0 {
         Err(CompileError::Parse)
